@@ -72,6 +72,8 @@ def run(tier):
     hs = empties(rng, n)
     hs += [histgen.gen_history(rng, nops=30) for _ in range(n // 3)]
     hs += raw_blocks(rng, n // 2)
+    hs += [histgen.add_external_block_ops(rng, histgen.gen_history(rng, nops=20, comp="none", sizes=[1, 3, 10000]), p=0.6)
+           for _ in range(n // 3)]
     m = run_histories(chk, hs, {"C02"}, label="c02")
     chk.distinct = m["execs"]
     return chk.finish()
